@@ -42,6 +42,15 @@ def run(chk):
                 jobs.append((k, 1, r, 'cert'))
         jobs += [(40, 2, 'dp', 'cert'), (40, 2, 'sd', 'cert'), (40, 2, 'new', 'cert')]
     ok = ec.run_blocks(chk, exe, jobs, 'c06', nrep=3, nrand=1, nproc=14, timeout=7000)
+    # plans as behaviours of Elim.tla: every recorded row operation replayed on the RFC matrix, ending in the identity
+    from props import plans_common as pc
+    if chk.quick:
+        pgroups = [[1, 5, 10], [11, 26], [49], [75], [101], [257]]
+    else:
+        pgroups = [[k] for k in (1, 2, 5, 10, 11, 12, 18, 20, 26, 30, 42, 49, 55, 60, 75, 91, 101, 127, 160, 200, 257, 307, 500)] + [[1002]]
+    ok = pc.run_plans(chk, exe, pgroups, 0, 'c06') and ok
+    res = vlib.tlc('MC_Elim', cfg='MC_Elim.cfg' if chk.quick else 'MC_Elim_thorough.cfg', workers=6, xss='64m', timeout=3000, tag='MC_Elim')
+    vlib.expect_mc_ok(chk, res, 'MC_Elim')
     # the spec's own constraint matrix has full rank for small K' (J(K') makes A invertible): MC_Rank
     hi = 60 if chk.quick else 160
     res = vlib.tlc('MC_Rank', workers=8, xss='256m', timeout=3000, env={'RANK_MAXK': hi}, tag='MC_Rank')
@@ -51,6 +60,8 @@ def run(chk):
     chk.cov['rule'] = ('one block encoder per (K, T, route): routes dd/sd = dense/sparse direct solve, dp/sp = plan generated '
                        'on that back-end and replayed, new = cached plan, plan = explicit plan; TLC certifies every LDPC, '
                        'HDPC (as MT x (GAMMA x C)) and LT relation and that all routes hold identical symbols; '
-                       'distinct_nontrivial = distinct (K\', route); MC_Rank: rank(A) = L by TLC for K\' <= %d' % hi)
+                       'distinct_nontrivial = distinct (K\', route); MC_Rank: rank(A) = L by TLC for K\' <= %d; encoding plans (default, sparse, dense '
+                       'generation) additionally replayed operation by operation as behaviours of Elim.tla on the RFC matrix '
+                       '(data- and T-independent certificate), MC_Elim: row operations preserve the solution set' % hi)
     chk.cov['kprimes'] = len({ec.kprime_of(j[0]) for j in jobs})
     chk.assumptions += ['tables frozen in spec/Rfc6330Tables.tla', 'T=1 (2 for one size); other T by C09']
